@@ -38,11 +38,24 @@ inline T *Reallocate(Alloc &alloc, T *p, SizeType oldCapa, SizeType newCapa, Siz
   return alloc.reallocate(p, oldCapa, newCapa, size);
 }
 
+/// Allocate a new storage of 'newCapa' elements and relocate the 'size' elements starting at 'p' into it.
+/// If the relocation throws (move or copy constructor of T), elements stay at 'p' and the new storage is released.
+template <class Alloc, class T, class SizeType>
+inline T *AllocateAndRelocate(Alloc &alloc, T *p, SizeType size, SizeType newCapa) {
+  T *newPtr = alloc.allocate(newCapa);
+  try {
+    (void)amc::uninitialized_relocate_n(p, size, newPtr);
+  } catch (...) {
+    alloc.deallocate(newPtr, newCapa);
+    throw;
+  }
+  return newPtr;
+}
+
 template <class Alloc, class T, class SizeType,
           typename std::enable_if<!CanReallocate<Alloc>::value, bool>::type = true>
 inline T *Reallocate(Alloc &alloc, T *p, SizeType oldCapa, SizeType newCapa, SizeType size) {
-  T *newPtr = alloc.allocate(newCapa);
-  (void)amc::uninitialized_relocate_n(p, size, newPtr);
+  T *newPtr = AllocateAndRelocate(alloc, p, size, newCapa);
   alloc.deallocate(p, oldCapa);
   return newPtr;
 }
@@ -53,8 +66,7 @@ void SmallVectorBase<T, Alloc, SizeType>::grow(uintmax_t minSize, bool exact) {
   if (isSmall()) {
     SizeType oldCapa = _size == std::numeric_limits<SizeType>::max() ? _capa : _size;
     newCapa = SafeNextCapacity(oldCapa, minSize, exact);
-    T *dynStorage = this->allocate(newCapa);
-    (void)amc::uninitialized_relocate_n(_storage.ptr(), _capa, dynStorage);
+    T *dynStorage = vec::AllocateAndRelocate(static_cast<Alloc &>(*this), _storage.ptr(), _capa, newCapa);
     _storage.setDyn(dynStorage);
     _size = _capa;
   } else {
